@@ -49,7 +49,8 @@ impl VHDLFormatter<'_> {
 #[cfg(test)]
 mod test {
     use crate::analysis::tests::Code;
-    use vhdl_lang::formatting::test_utils::check_formatted;
+    use crate::VHDLStandard::VHDL2019;
+    use vhdl_lang::formatting::test_utils::{check_formatted, check_formatted_std};
 
     fn check_entity_formatted(input: &str) {
         check_formatted(
@@ -168,6 +169,27 @@ entity foo is
         B: in std_logic := '1'
     );
 end foo;",
+        );
+    }
+
+    #[test]
+    fn test_entity_with_trailing_semicolon_in_interface_lists() {
+        let input = "\
+entity foo is
+    generic (
+        a: in std_logic := '1'; -- last generic
+    );
+    port (
+        B: in std_logic := '1';
+        C: out std_logic;
+    );
+end foo;";
+        check_formatted_std(
+            input,
+            input,
+            VHDL2019,
+            Code::entity_decl,
+            |formatter, entity, buffer| formatter.format_entity(entity, buffer),
         );
     }
 
